@@ -1253,8 +1253,12 @@ package flags
 //@   at call Option.Set #1: opt != nil && (pval == nil) == (!opt.canArgument() && len(inival.Value) == 0) && (pval != nil && opt.value.Type().Kind() != reflect.Map ==> *pval == inival.Value)
 //@   at call Option.setDefault #1: opt != nil && (pval == nil) == (!opt.canArgument() && len(inival.Value) == 0) && (pval != nil && opt.value.Type().Kind() != reflect.Map ==> *pval == inival.Value)
 //@   at[C15] call IniParser.matchingGroups #1: idx_2 < len(ini.order) && name == ini.order[idx_2]
-//@   at[C12] call Option.Set #1: pval != nil && opt.value.Type().Kind() == reflect.Map && len(strings.SplitN(inival.Value, ":", 2)) == 2 ==> *pval == strings.SplitN(inival.Value, ":", 2)[0] + ":" + iniMapDecode(strings.SplitN(inival.Value, ":", 2)[1])
-//@   at[C12] call Option.setDefault #1: pval != nil && opt.value.Type().Kind() == reflect.Map && len(strings.SplitN(inival.Value, ":", 2)) == 2 ==> *pval == strings.SplitN(inival.Value, ":", 2)[0] + ":" + iniMapDecode(strings.SplitN(inival.Value, ":", 2)[1])
+// (C13: a value is decoded once - a map entry the reader has already unquoted as a whole is not unquoted again part by part)
+//@   at[C13,C12] call strconv.Unquote #1: !inival.Quoted
+//@   at[C12,C13] call Option.Set #1: pval != nil && opt.value.Type().Kind() == reflect.Map && section[idx_3].Quoted ==> *pval == inival.Value
+//@   at[C12] call Option.Set #1: pval != nil && opt.value.Type().Kind() == reflect.Map && !section[idx_3].Quoted && len(strings.SplitN(inival.Value, ":", 2)) == 2 ==> *pval == strings.SplitN(inival.Value, ":", 2)[0] + ":" + iniMapDecode(strings.SplitN(inival.Value, ":", 2)[1])
+//@   at[C12,C13] call Option.setDefault #1: pval != nil && opt.value.Type().Kind() == reflect.Map && section[idx_3].Quoted ==> *pval == inival.Value
+//@   at[C12] call Option.setDefault #1: pval != nil && opt.value.Type().Kind() == reflect.Map && !section[idx_3].Quoted && len(strings.SplitN(inival.Value, ":", 2)) == 2 ==> *pval == strings.SplitN(inival.Value, ":", 2)[0] + ":" + iniMapDecode(strings.SplitN(inival.Value, ":", 2)[1])
 //@   ensures[C14] err != nil ==> isTyped(err, ErrUnknownGroup) || (is(err, *IniError) && as(err, *IniError) != nil && as(err, *IniError).File == ini.File)
 //@   ensures[C14] isTyped(err, ErrUnknownGroup) ==> p.Options&IgnoreUnknown == 0
 
